@@ -2,6 +2,8 @@
    Property theorems only; proofs live in NetFail/ (and Rel/ for the target manager). *)
 From Ergo Require Import Common.Base Rel.Amap Rel.Model Rel.TMProofs Rel.RegProofs NetFail.Model NetFail.Proofs.
 From Ergo Require Import NetFail.Guard NetFail.GuardCases NetFail.GuardProofs NetFail.Accept.
+From Coq Require Import Permutation.
+From Ergo Require Import NetFail.Fanout NetFail.FanoutProofs.
 Local Open Scope N_scope.
 
 (* CleanupNode n as set comprehension (proved in the Rel engine): reported are exactly the relations
@@ -240,3 +242,133 @@ Example C14_example :
   inbox_of (lpid 1002) (n_st s) = [mknote true (TPid (mkpid 2 1)) 13; mknote true (TNode 2) r_noconn] /\
   rels (ntm s) = [] /\ n_conns s = [].
 Proof. vm_compute. repeat split; reflexivity. Qed.
+
+(* ---- the fan-out with FAILING deliveries (NetFail/Fanout.v): RouteNodeDown / RouteTerminate* walk two Go maps
+   target -> consumers and deliver with sendExitMessage (Urgent queue) / RouteSendPID (System queue); a delivery to
+   ONE consumer fails when that consumer is gone from n.processes (ErrProcessUnknown), was killed while busy in a
+   callback and is still registered (ErrProcessTerminated, down messages only) or has a bounded mailbox whose queue
+   is full (ErrProcessMailboxFull).  [able w l]: w is alive (or owed exits only) and its two queues have room for
+   the deliveries l addressed to it — a condition on the consumer's OWN record. ---- *)
+
+(* the nested loops are one run over the flattened list of deliveries *)
+Theorem C14_fan_is_run : forall gl gm s,
+  node_down_fan gl gm s = run r_noconn (flat false gl ++ flat true gm) s.
+Proof. exact node_down_fan_run. Qed.
+Print Assumptions C14_fan_is_run.
+
+(* what the fan-out does to c depends on c's own record only: whatever the state of every other process
+   (dead, unregistering, full), c ends the same *)
+Theorem C14_fan_independent : forall r dl s s' c, s c = s' c -> run r dl s c = run r dl s' c.
+Proof. exact fan_independent. Qed.
+Print Assumptions C14_fan_independent.
+
+(* a consumer whose own deliveries succeed gets every note addressed to it, once each, in the order of the walk *)
+Theorem C14_fan_exact : forall r dl s c w,
+  s c = Some w -> able w (mine c dl) = true ->
+  box c (run r dl s) = w_box w ++ map (d_note r) (mine c dl) /\
+  handled c (run r dl s) = if w_alive w then w_box w ++ map (d_note r) (mine c dl) else [].
+Proof. exact fan_exact. Qed.
+Print Assumptions C14_fan_exact.
+
+(* every permutation of the walk (iteration order of the maps, order inside the consumer slices) gives such a
+   consumer the same messages *)
+Theorem C14_fan_order_free : forall r dl dl' s c w,
+  Permutation dl dl' -> s c = Some w -> able w (mine c dl) = true ->
+  Permutation (box c (run r dl s)) (box c (run r dl' s)).
+Proof. exact fan_order_free. Qed.
+Print Assumptions C14_fan_order_free.
+
+(* nobody, able or not, gets a message that is not addressed to it, and none twice *)
+Theorem C14_fan_at_most_once : forall r dl s c w,
+  s c = Some w -> exists l', sublist l' (mine c dl) /\ box c (run r dl s) = w_box w ++ map (d_note r) l'.
+Proof. exact fan_at_most_once. Qed.
+Print Assumptions C14_fan_at_most_once.
+
+(* MAIN: for every relation set of the target manager, every grouping and iteration order of the two maps
+   CleanupNode(n) returns and every state of the other processes, RouteNodeDown(n) gives a consumer whose own
+   deliveries succeed exactly one more 'no connection' exit per link and down per monitor it held on a pid, name,
+   alias, event of n or on n itself ([due_node]), and nothing else *)
+Theorem C14_node_down_fan_exact : forall n m m' l mo gl gm s c w x,
+  NoDup (rels m) -> tm_cleanup_node n m = (m', l, mo) ->
+  Permutation (flat false gl) (map (pair_dlv false) l) ->
+  Permutation (flat true gm) (map (pair_dlv true) mo) ->
+  s c = Some w -> able w (mine c (node_dlvs n (rels m))) = true ->
+  count_occ note_dec (box c (node_down_fan gl gm s)) x
+  = (count_occ note_dec (w_box w) x + due_node n (rels m) c x)%nat.
+Proof. exact node_down_fan_exact. Qed.
+Print Assumptions C14_node_down_fan_exact.
+
+Theorem C14_node_down_fan_at_most_once : forall n m m' l mo gl gm s c w,
+  NoDup (rels m) -> tm_cleanup_node n m = (m', l, mo) ->
+  Permutation (flat false gl) (map (pair_dlv false) l) ->
+  Permutation (flat true gm) (map (pair_dlv true) mo) ->
+  s c = Some w ->
+  exists l', box c (node_down_fan gl gm s) = w_box w ++ map (d_note r_noconn) l' /\ NoDup l' /\
+             forall d, In d l' -> d_c d = c /\ In (mkkey c (d_t d) (d_down d)) (rels m) /\ target_node (d_t d) = n.
+Proof. exact node_down_fan_at_most_once. Qed.
+Print Assumptions C14_node_down_fan_at_most_once.
+
+(* the first model of this file ([node_down_st]: deliveries by Rel's [send], which fails only for a process that is
+   gone) is the special case "every registered process is healthy" of the fan-out model: both give every live process
+   the same messages *)
+Theorem C14_fan_agrees_with_rel : forall n s m' l mo gl gm c x,
+  idx_ok (s_tm s) -> tm_cleanup_node n (s_tm s) = (m', l, mo) ->
+  Permutation (flat false gl) (map (pair_dlv false) l) ->
+  Permutation (flat true gm) (map (pair_dlv true) mo) ->
+  live c s = true ->
+  count_occ note_dec (box c (node_down_fan gl gm (wst_of s))) x = cnt x c (node_down_st n s).
+Proof. exact fan_agrees_with_rel. Qed.
+Print Assumptions C14_fan_agrees_with_rel.
+
+(* the same for RouteTerminate*(t, r) (a Terminate* frame arrived, or a local target terminated) *)
+Theorem C14_terminate_fan_exact : forall t r lc mc s c w x,
+  NoDup lc -> NoDup mc -> s c = Some w -> able w (mine c (term_dlvs t lc mc)) = true ->
+  count_occ note_dec (box c (terminate_fan t r lc mc s)) x
+  = (count_occ note_dec (w_box w) x + due_target t r lc mc c x)%nat.
+Proof. exact terminate_fan_exact. Qed.
+Print Assumptions C14_terminate_fan_exact.
+
+Theorem C14_terminate_fan_order_free : forall t r lc mc lc' mc' s c w,
+  Permutation lc lc' -> Permutation mc mc' -> s c = Some w -> able w (mine c (term_dlvs t lc mc)) = true ->
+  Permutation (box c (terminate_fan t r lc mc s)) (box c (terminate_fan t r lc' mc' s)).
+Proof. exact terminate_fan_order_free. Qed.
+Print Assumptions C14_terminate_fan_order_free.
+
+(* refuted: the seeded `if err != nil { return }` in the monitor loop of RouteNodeDown: a zombie met first silences an
+   able monitor consumer of ANOTHER target *)
+Theorem C14_fan_mon_return_refuted :
+  exists gl gm s c w x,
+    s c = Some w /\ able w (mine c (flat false gl ++ flat true gm)) = true /\
+    In (mkdlv (n_down x) (n_target x) c) (flat false gl ++ flat true gm) /\ n_reason x = r_noconn /\
+    count_occ note_dec (box c (node_down_fan gl gm s)) x = 1%nat /\
+    count_occ note_dec (box c (node_down_fan_mon_return gl gm s)) x = 0%nat.
+Proof. exact fan_mon_return_refuted. Qed.
+Print Assumptions C14_fan_mon_return_refuted.
+
+(* the same `return` in the link loop: a full Urgent queue silences later link consumers and every monitor consumer *)
+Theorem C14_fan_link_return_refuted :
+  exists gl gm s c w x,
+    s c = Some w /\ able w (mine c (flat false gl ++ flat true gm)) = true /\
+    In (mkdlv (n_down x) (n_target x) c) (flat false gl ++ flat true gm) /\ n_reason x = r_noconn /\
+    count_occ note_dec (box c (node_down_fan gl gm s)) x = 1%nat /\
+    count_occ note_dec (box c (node_down_fan_link_return gl gm s)) x = 0%nat.
+Proof. exact fan_link_return_refuted. Qed.
+Print Assumptions C14_fan_link_return_refuted.
+
+(* `break` out of the consumer loop *)
+Theorem C14_fan_break_refuted :
+  exists gl gm s c w x,
+    s c = Some w /\ able w (mine c (flat false gl ++ flat true gm)) = true /\
+    In (mkdlv (n_down x) (n_target x) c) (flat false gl ++ flat true gm) /\ n_reason x = r_noconn /\
+    count_occ note_dec (box c (node_down_fan gl gm s)) x = 1%nat /\
+    count_occ note_dec (box c (node_down_fan_break gl gm s)) x = 0%nat.
+Proof. exact fan_break_refuted. Qed.
+Print Assumptions C14_fan_break_refuted.
+
+Theorem C14_terminate_break_refuted :
+  exists t r lc mc s c w x,
+    s c = Some w /\ able w (mine c (term_dlvs t lc mc)) = true /\ due_target t r lc mc c x = 1%nat /\
+    count_occ note_dec (box c (terminate_fan t r lc mc s)) x = 1%nat /\
+    count_occ note_dec (box c (terminate_fan_break t r lc mc s)) x = 0%nat.
+Proof. exact terminate_break_refuted. Qed.
+Print Assumptions C14_terminate_break_refuted.
